@@ -126,26 +126,22 @@ def run(name, props, tier):
     props = props or [meta["property"]]
     d = worktree()
     results = meta.get("detected_by", {})
-    saved = tempfile.mkdtemp(prefix="vseed_ev_", dir="/tmp")
+    evdir = tempfile.mkdtemp(prefix="vseed_ev_", dir="/tmp")   # private evidence/witness directory: parallel runs never touch /verif/evidence
     try:
         rc, out = sh(["git", "apply", os.path.join(dst, "patch.diff")], cwd=d)
         if rc:
             print("patch does not apply:", out); return 2
-        for f in os.listdir(os.path.join(VERIF, "evidence")):
-            if f.endswith(".json"):
-                shutil.copy(os.path.join(VERIF, "evidence", f), saved)
-        env = dict(os.environ); env["VERIF_REPO"] = d
+        env = dict(os.environ); env["VERIF_REPO"] = d; env["VERIF_EVIDENCE_DIR"] = evdir
         for p in props:
             t0 = time.time()
             rc, out = sh(["./check", p, "--tier", tier], cwd=VERIF, env=env, timeout=4 * 3600)
             keys = [l.split("key=[", 1)[1].split("]", 1)[0] for l in out.splitlines() if l.startswith("VIOLATION") and "key=[" in l]
             results["%s/%s" % (p, tier)] = {"exit": rc, "keys": keys[:12], "wall_s": round(time.time() - t0, 1)}
             print(name, p, tier, "exit", rc, keys[:6])
+            if rc not in (0, 1):
+                print(out[-1500:])
     finally:
-        for f in os.listdir(saved):
-            shutil.copy(os.path.join(saved, f), os.path.join(VERIF, "evidence", f))
-        shutil.rmtree(saved, ignore_errors=True)
-        shutil.rmtree(os.path.join(VERIF, "evidence", "witness"), ignore_errors=True)
+        shutil.rmtree(evdir, ignore_errors=True)
         drop(d)
     meta["detected_by"] = results
     with open(os.path.join(dst, "meta.json"), "w") as f:
